@@ -499,6 +499,10 @@ class Gen:
             ("MatrixMultiplication(BZ,RZ,BZ)", MM(BZ, RZ, BZ)),
             ("ArrayMultiplication(RZ,RZ,p)", AM(RZ, RZ, I.p)),
             ("ArrayMultiplication(RY,B(q),RY,p)", AM(RY, Bq, RY, I.p)),   # (two boosts B(q) in one chain are too ill-conditioned for the 1e-12 comparison)
+            # five and six factors in one chain (a particle four or five decay nodes deep): the einsum subscripts need more letters
+            ("MatrixMultiplication(RZ,RY,BZ,RY,RZ)", MM(RZ, RY, BZ, RY, RZ)),
+            ("MatrixMultiplication(RZ,RY,RZ,RY,RZ,RY)", MM(RZ, RY, RZ, RY, RZ, RY)),
+            ("ArrayMultiplication(RY,RZ,RY,RZ,BZ,p)", AM(RY, RZ, RY, RZ, BZ, I.p)),
             ("NegativeMomentum(p)", lz.NegativeMomentum(I.p)),
             ("NegativeMomentum(p+q)", lz.NegativeMomentum(ae.ArraySum(I.p, I.q))),
             ("BoostMatrix(NegativeMomentum(p+q))", lz.BoostMatrix(lz.NegativeMomentum(ae.ArraySum(I.p, I.q)))),
